@@ -22,6 +22,7 @@ import GraphiqModel.Proofs.Check
 import GraphiqModel.Proofs.Circuit
 import GraphiqModel.Proofs.SolverSoundMain
 import GraphiqModel.Proofs.SolverCompleteMain
+import GraphiqModel.Proofs.SolverCompleteFlag
 namespace Graphiq.C02
 open Graphiq Graphiq.PRow Graphiq.Tab Graphiq.STab
 
@@ -169,27 +170,40 @@ abbrev InverseCircuitComplete : Prop :=
         parityTo t.n (fun i => S i && (t.row i).z j) = false) → ∀ i, i < t.n → S i = false) →
     ∃ t' c, t.inverseCircuit = .ok (t', c) ∧ t'.isZero = true
 
-/-- **completeness, full statement**: for every simple graph on at least one vertex without isolated vertex the solver model returns
-    and its final working tableau generates exactly the signed group of |0…0⟩ (the semantic content of the flag `hfinal` the driver
-    prints: `sameGroup_sound` turns the flag into this `SpanEq`).  `0 < np`: on the empty graph `determine_n_emitters` raises
-    (`max` of an empty list); isolated vertices: finding D3. -/
+/-- **completeness, full statement**: for every simple graph on at least one vertex without isolated vertex the solver model returns,
+    its final working tableau generates exactly the signed group of |0…0⟩ (`SpanEq`, what soundness consumes), and the executable test of
+    this (`sameGroup`, the hypothesis `hfinal` of `solve_sound`, printed by the driver as `zero=1` and required by the harness on every
+    input) succeeds.  `0 < np`: on the empty graph `determine_n_emitters` raises (`max` of an empty list); isolated vertices: D3. -/
 def solver_complete_statement : Prop :=
   ∀ (np : Nat) (adj : Nat → Nat → Bool), 0 < np → (∀ i j, adj i j = adj j i) → (∀ i, adj i i = false) →
     (∀ i, i < np → ∃ j, j < np ∧ adj i j = true) →
-    ∃ s, Solver.solve (graphSTab np adj) = .ok s ∧ SpanEq s.t (STab.zero (np + s.ne))
+    ∃ s, Solver.solve (graphSTab np adj) = .ok s ∧ SpanEq s.t (STab.zero (np + s.ne)) ∧
+      s.t.sameGroup (STab.zero (np + s.ne)) = true
 
 /-- **Completeness of the time-reversed solver** (every graph without isolated vertex, every size), under completeness of
     `inverse_circuit`: no helper raises in any round, both assertions after the loop hold, the replay of the inverse circuit is
-    accepted, and the final tableau generates the group of |0…0⟩ -/
-theorem solver_complete (hinv : InverseCircuitComplete) : solver_complete_statement :=
-  fun np adj hnp hsym hirr hiso => Solver.solve_complete_graph hinv np adj hnp hsym hirr hiso
+    accepted, and the final tableau generates the group of |0…0⟩ — semantically and as the executable flag -/
+theorem solver_complete (hinv : InverseCircuitComplete) : solver_complete_statement := by
+  intro np adj hnp hsym hirr hiso
+  obtain ⟨s, hs, hse⟩ := Solver.solve_complete_graph hinv np adj hnp hsym hirr hiso
+  have inv := Solver.solve_inv (graphSTab np adj) (Solver.graphSTab_good np adj hsym) s hs
+  exact ⟨s, hs, hse, Solver.sameGroup_zero _ s.t inv.n_eq inv.good hse⟩
+
+/-- **the flag `zero=1` is exact**: a real commuting tableau passes the driver's test `sameGroup · (zero n)` iff it generates the signed
+    group of |0…0⟩ (`sameGroup_sound` and its converse on this group, proved through the Z loop of `canonical_form`) -/
+theorem final_flag_exact (n : Nat) (t : STab) (hn : t.n = n) (hg : t.Good) :
+    t.sameGroup (STab.zero n) = true ↔ SpanEq t (STab.zero n) :=
+  ⟨sameGroup_sound t _, Solver.sameGroup_zero n t hn hg⟩
 
 /-- the same for **any stabilizer target**: real, commuting, independent generators on at least one qubit, no qubit of which is a
     product qubit (`NotProd`: no group element is supported on that qubit alone) -/
 theorem solver_complete_stabilizer (hinv : InverseCircuitComplete) (target : STab) (hg : target.Good) (hi : target.LinIndep)
     (hn : 0 < target.n) (hnp : ∀ p, p < target.n → target.NotProd p) :
-    ∃ s, Solver.solve target = .ok s ∧ SpanEq s.t (STab.zero (target.n + s.ne)) :=
-  Solver.solve_complete_stabilizer hinv target hg hi hn hnp
+    ∃ s, Solver.solve target = .ok s ∧ SpanEq s.t (STab.zero (target.n + s.ne)) ∧
+      s.t.sameGroup (STab.zero (target.n + s.ne)) = true := by
+  obtain ⟨s, hs, hse⟩ := Solver.solve_complete_stabilizer hinv target hg hi hn hnp
+  have inv := Solver.solve_inv target hg s hs
+  exact ⟨s, hs, hse, Solver.sameGroup_zero _ s.t inv.n_eq inv.good hse⟩
 
 /-- **The solver is correct** (property C02 for the model, every graph without isolated vertex, every size, every outcome script):
     `solve` returns a state whose recorded circuit, run from all-|0⟩ by the tableau semantics under EVERY outcome script, ends with the
@@ -199,7 +213,7 @@ theorem solve_correct (hinv : InverseCircuitComplete) (np : Nat) (adj : Nat → 
     ∃ s, Solver.solve (graphSTab np adj) = .ok s ∧
       ∀ script : List Bool, ∃ rs, stabRun s.ne np .prob script s.cops = some rs ∧ rs.t.Valid ∧
         (STab.ofTab rs.t).n = np + s.ne ∧ ∀ p, (STab.ofTab rs.t).Spn p ↔ (targetSTab np s.ne adj).Spn p := by
-  obtain ⟨s, hs, hfinal⟩ := solver_complete hinv np adj hnp hsym hirr hiso
+  obtain ⟨s, hs, hfinal, _⟩ := solver_complete hinv np adj hnp hsym hirr hiso
   refine ⟨s, hs, fun script => ?_⟩
   obtain ⟨rs, h1, h2, h3⟩ := Solver.solve_run (graphSTab np adj) (Solver.graphSTab_good np adj hsym) s hs hfinal script
   have h4 := h3.trans (Solver.withEmitters_graph np s.ne adj)
@@ -212,7 +226,7 @@ theorem solve_correct_stabilizer (hinv : InverseCircuitComplete) (target : STab)
     ∃ s, Solver.solve target = .ok s ∧
       ∀ script : List Bool, ∃ rs, stabRun s.ne target.n .prob script s.cops = some rs ∧ rs.t.Valid ∧
         (STab.ofTab rs.t).n = target.n + s.ne ∧ ∀ p, (STab.ofTab rs.t).Spn p ↔ (Solver.withEmitters target s.ne).Spn p := by
-  obtain ⟨s, hs, hfinal⟩ := solver_complete_stabilizer hinv target hg hi hn hnp
+  obtain ⟨s, hs, hfinal, _⟩ := solver_complete_stabilizer hinv target hg hi hn hnp
   refine ⟨s, hs, fun script => ?_⟩
   obtain ⟨rs, h1, h2, h3⟩ := Solver.solve_run target hg s hs hfinal script
   exact ⟨rs, h1, h2, h3.n_eq.trans (Solver.withEmitters_n target s.ne), fun p => ⟨h3.sub p, h3.sup p⟩⟩
